@@ -452,9 +452,16 @@ ShapeVerdict(c, obs) ==
 NewPathOps == {"Copy", "Flatten", "ReplaceArcs", "XMonotone", "Reverse", "Dash", "Offset", "Stroke",
                "Settle", "And", "Or", "Xor", "Not", "DivideBy", "Translate", "Scale"}
 InPlaceOps == {"Transform", "Gridsnap"}
+\* Aliasing model (Go slices: backing array, offset, len, cap).  The machine's state is a VALUE; Append and Join take an
+\* argument path and return the extended path.  Result and argument are independent values afterwards: no later call on
+\* the result (builder calls of the same history, LineTo, Transform) may change Data() of the argument, and none on the
+\* argument may change the result - i.e. the result must not share the argument's backing array.  The one documented
+\* exception: Join "returns ... q if p is empty" (the result IS the argument then).  The driver keeps every argument of a
+\* history alive with its value, re-checks it after every later call and finally modifies both sides in place.
+IndependentResultOps == {"Append", "Join"}
 \* a derived-operation event logged by the driver: [op, ret (returned without panic/timeout), recv, args (unchanged)]
 DeriveOK(ev) == ev.ret /\ (ev.op \notin InPlaceOps => ev.recv) /\ (ev.op \in NewPathOps => ev.args)
-Header == [hdr |-> TRUE, newpath |-> NewPathOps, inplace |-> InPlaceOps]
+Header == [hdr |-> TRUE, newpath |-> NewPathOps, inplace |-> InPlaceOps, independent |-> IndependentResultOps]
 HdrInv == (hist = <<>>) => PrintT("@@" \o ToJson(Header))
 
 \* ---- model-level properties ------------------------------------------------------------------------
